@@ -88,20 +88,26 @@ def body_union(c1, c2, i=''):
     return ('<xs:complexType name="B%s"><xs:anyAttribute %s %s/></xs:complexType>\n'
             '<xs:complexType name="D%s"><xs:complexContent><xs:extension base="t:B%s"><xs:anyAttribute %s %s/>'
             '</xs:extension></xs:complexContent></xs:complexType>\n<xs:element name="e%s" type="t:D%s"/>\n'
-            % (i, render(c1), PC, i, i, render(c2), PC, i, i))
+            '<xs:element name="x%s" type="t:B%s"/>\n'
+            % (i, render(c1), PC, i, i, render(c2), PC, i, i, i, i))
 
 
 def body_inter(c1, c2, i=''):
     return ('<xs:attributeGroup name="g%s"><xs:anyAttribute %s %s/></xs:attributeGroup>\n'
             '<xs:attributeGroup name="h%s"><xs:anyAttribute %s %s/></xs:attributeGroup>\n'
             '<xs:element name="e%s"><xs:complexType><xs:attributeGroup ref="t:g%s"/><xs:attributeGroup ref="t:h%s"/>'
-            '</xs:complexType></xs:element>\n' % (i, render(c1), PC, i, render(c2), PC, i, i, i))
+            '</xs:complexType></xs:element>\n'
+            '<xs:element name="x%s"><xs:complexType><xs:attributeGroup ref="t:g%s"/></xs:complexType></xs:element>\n'
+            '<xs:element name="y%s"><xs:complexType><xs:attributeGroup ref="t:h%s"/></xs:complexType></xs:element>\n'
+            % (i, render(c1), PC, i, render(c2), PC, i, i, i, i, i, i, i))
 
 
 def body_inter_local(c1, c2, i=''):
     return ('<xs:attributeGroup name="g%s"><xs:anyAttribute %s %s/></xs:attributeGroup>\n'
             '<xs:element name="e%s"><xs:complexType><xs:attributeGroup ref="t:g%s"/><xs:anyAttribute %s %s/>'
-            '</xs:complexType></xs:element>\n' % (i, render(c1), PC, i, i, render(c2), PC))
+            '</xs:complexType></xs:element>\n'
+            '<xs:element name="x%s"><xs:complexType><xs:attributeGroup ref="t:g%s"/></xs:complexType></xs:element>\n'
+            % (i, render(c1), PC, i, i, render(c2), PC, i, i))
 
 
 def body_restr_attr(c1, c2):
@@ -195,6 +201,15 @@ def run_case(version, op, c1, c2):
         if got & judged != exp & judged:
             disc('extra=%s|missing=%s' % (fmt((got - exp) & judged), fmt((exp - got) & judged)),
                  '%s of %s and %s admits {%s}; sets give {%s}' % (op, render(c1), render(c2), fmt(got), fmt(exp)))
+        # the operands themselves must still denote their own sets after the composition (no aliasing)
+        for elem, c, s_own in (('x', c1, s1),) + ((('y', c2, s2),) if op == 'inter' else ()):
+            own = observed_set(schema, elem, 'attr')
+            info['validated'] += len(UNIVERSE)
+            info['judged'] += len(UNIVERSE)
+            if own != s_own:
+                disc('operand-%s|extra=%s|missing=%s' % (elem, fmt(own - s_own), fmt(s_own - own)),
+                     'after the %s with %s the operand wildcard %s itself admits {%s}; its set is {%s}'
+                     % (op, render(c2 if elem == 'x' else c1), render(c), fmt(own), fmt(s_own)))
         return discs, info
 
     if op in ('restr-attr', 'restr-elem'):
